@@ -411,6 +411,14 @@ def _phrase_worker(arg):
     return out
 
 
+def _single_worker(arg):
+    mode, T = arg
+    fr = F.single_frag(mode, T)
+    if fr is None:
+        return [{'mode': mode, 'kind': 'atom', 'variant': 'base', 'text': T, 'skip': 'atom-not-accepted-by-gate'}]
+    return run_fragment(fr)
+
+
 def _sig(r, cls):
     v = '' if r['variant'] == 'base' else '@' + r['variant']
     return f'C05|{r["mode"]}|{r["kind"]}|{cls}{v}'
@@ -1018,6 +1026,12 @@ def _run_all(ctx, nprog, nstd, per_kind, cap, n_random_mal, n_phrase_jobs=48, n_
     results = [r for lst in res for r in lst]
     _report(ctx, results)
     ctx.notes['fragment_parses'] = len(results)
+    # (2a) deterministic product: single-element atoms of every mode x every layout variant
+    sres = [r for lst in pmap(_single_worker, [(m, T) for m, lst in sorted(F.SINGLE_ATOMS.items()) for T in lst]) for r in lst]
+    _report(ctx, sres)
+    ctx.notes['single_product_parses'] = len(sres)
+    ctx.notes['single_product_must_accept'] = sum(1 for r in sres if r.get('must'))
+    ctx.notes['single_product_atoms_not_gated'] = sorted({(r['mode'], r['text']) for r in sres if r.get('skip') == 'atom-not-accepted-by-gate'})
     # (2b) phrases: re-separated sequences (separators on following lines, trailing separators, non-ASCII on every line)
     pj = [(p if i % 3 else None, ctx.rng.randrange(1 << 30), n_phrase, 0.25) for i, p in enumerate(progs[:n_phrase_jobs])]
     pres = [r for lst in pmap(_phrase_worker, pj) for r in lst]
